@@ -104,8 +104,8 @@ theorem memDisp_decoded (rb7 rel s : BitVec 32) (hs : s ≤ 6#32) :
 /-! ### `EmitVexEvexM` on a `[base64 + disp]` operand -/
 
 /-- model-side `[base64 + disp]` operand -/
-def memBase (size : Nat) (rb : BitVec 32) (d : BitVec 64) (seg : Nat := 0) (a32 : Bool := false) : Mem :=
-  { size := size, baseType := (if a32 then 5 else 6), baseId := rb.toNat, indexType := 0, indexId := 0, shift := 0, offset := d, seg := seg, bcst := 0, addrType := 0 }
+def memBase (size : Nat) (rb : BitVec 32) (d : BitVec 64) (seg : Nat := 0) (a32 : Bool := false) (bc : Nat := 0) : Mem :=
+  { size := size, baseType := (if a32 then 5 else 6), baseId := rb.toNat, indexType := 0, indexId := 0, shift := 0, offset := d, seg := seg, bcst := bc, addrType := 0 }
 
 theorem memInfo_gp64 : memInfo 6 0 = 0x0D#32 := by decide
 theorem memInfo_gp32 : memInfo 5 0 = 0x8D#32 := by decide
@@ -154,6 +154,34 @@ theorem emitVexEvexM_base_eq (c : Model.X86.Ctx) (opcode reg vvvvv rb aaa : BitV
       show (0x800000#32 &&& (0x800#32 ||| 0x400#32)) = 0#32 from by decide]
     generalize vexEvexMPrefix c _ opcode _ _ = r
     cases r <;> rfl
+/-- `EmitVexEvexM` on a BROADCAST `seg:[base + disp]{1toN}` operand = prefix part with the b bit (bit 20 of `x`), then `EmitModSib` -/
+theorem emitVexEvexM_base_eqB (c : Model.X86.Ctx) (opcode reg vvvvv rb aaa : BitVec 32) (z : Bool) (size : Nat) (d imm : BitVec 64) (n : Nat) (seg : Nat) (a32 : Bool)
+    (bc : Nat) (hbc : bc ≠ 0)
+    (hm : c.mode64 = true) (hpe : c.preferEvex = false) (hk : c.extraId = aaa) (hvs : c.vsib = false) :
+    emitVexEvexM c opcode (zOpt z) (reg + (vvvvv <<< 7)) (memBase size rb d seg a32 bc) imm n =
+      (match vexEvexMPrefix c ((if c.vexFlag then xMbK opcode reg vvvvv rb aaa z ||| 0x100000#32 else xMbK opcode reg vvvvv rb aaa z ||| 0x100000#32 ||| 0x80000000#32) ||| zOpt z)
+          opcode (zOpt z) (memBase size rb d seg a32 bc) with
+       | .error e => .error e
+       | .ok v => emitModSib c (segmentPrefix seg ++ aoBytes a32 ++ v.1) (segmentPrefix seg).length v.2 (zOpt z) ((reg + (vvvvv <<< 7)) &&& 7#32) rb 0#32
+                    (rmInfoBase a32) (memBase size rb d seg a32 bc) imm n false) := by
+  have hbc' : (bc != 0) = true := by simpa using hbc
+  unfold emitVexEvexM
+  cases z <;> cases a32
+  all_goals
+    simp only [memBase, xMbK, aoBytes, rmInfoBase, zOpt, Bool.false_eq_true, ↓reduceIte, hbc']
+    simp only [rtLabel, hk, hpe, hvs, memInfo_gp64, memInfo_gp32, Model.X86.Ctx.aoMask, hm, oZMask, oER, oSAE, oVex, oVex3]
+    simp only [BitVec.ofNat_toNat, BitVec.setWidth_eq, BitVec.zero_and, BitVec.zero_or, BitVec.or_zero, bne_self_eq_false, Bool.false_eq_true, ↓reduceIte,
+      Bool.false_and, gt_iff_lt, Nat.lt_irrefl, Nat.not_lt_zero, BitVec.zero_shiftLeft, BitVec.and_zero, bind, Except.bind, Bool.not_false,
+      show (1 < 6) = True from by decide, show (1 < 5) = True from by decide, show (0x0D#32 &&& 0x80#32 != 0#32) = false from by decide,
+      show (0x8D#32 &&& 0x80#32 != 0#32) = true from by decide, List.nil_append, List.length_nil, List.append_nil,
+      show ((0:Nat) != 0) = false from by decide, show (1#32 <<< 20 : BitVec 32) = 0x100000#32 from by decide,
+      show (0x800000#32 &&& (0x800000#32 ||| 0x40000#32 ||| 0x80000#32) != 0#32) = true from by decide,
+      show (0x800000#32 &&& (0x40000#32 ||| 0x80000#32) != 0#32) = false from by decide,
+      show (0x800000#32 &&& 0x800000#32) = 0x800000#32 from by decide,
+      show (0x800000#32 &&& (0x800#32 ||| 0x400#32)) = 0#32 from by decide]
+    generalize vexEvexMPrefix c _ opcode _ _ = r
+    cases r <;> rfl
+
 theorem cdisp8Shl_low (t : BitVec 32) : ∃ v : BitVec 32, cdisp8Shl t = v <<< 13 := ⟨_, rfl⟩
 
 /-- the prefix part without broadcast and without a VSIB index ≥ 16: EVEX (opcode word adjusted by the compressed-displacement table), VEX3 or
@@ -187,9 +215,39 @@ theorem vexEvexMPrefix_nobcst (c : Model.X86.Ctx) (x opcode options : BitVec 32)
     obtain ⟨v, hv⟩ := cdisp8Shl_low ((opcode >>> 13 &&& 24#32) + (opcode >>> 25 &&& 4#32) + (evexWord x opcode >>> 29 &&& 3#32))
     rw [hv]; bv_decide
 
+/-- log2 of the broadcast element size -/
+def bcstShift (unit : Nat) : BitVec 32 := BitVec.ofNat 32 (ctzSmall unit)
+
+/-- the prefix part WITH broadcast: EVEX with b = 1; the L'L bits stay the opcode's when the broadcast's vector size (element size << count)
+does not exceed the form's vector length; the compressed-displacement shift becomes log2 of the element size -/
+theorem vexEvexMPrefix_bcst (c : Model.X86.Ctx) (x opcode options : BitVec 32) (m : Mem)
+    (hx20 : x &&& 0x00100000#32 ≠ 0#32) (hu : c.bcstSize ≠ 0)
+    (hbll : BitVec.ofNat 32 (max (ctzSmall (c.bcstSize <<< m.bcst)) 4 - 4) <<< 29 ≤ evexWord x opcode &&& (0x3#32 <<< 29))
+    (hbll2 : BitVec.ofNat 32 (max (ctzSmall (c.bcstSize <<< m.bcst)) 4 - 4) <<< 29 ≤ 2#32 <<< 29) :
+    vexEvexMPrefix c x opcode options m =
+      .ok (le32 (evexWord x opcode) ++ [opcode.truncate 8], (opcode &&& ~~~kCDSHL_Mask) ||| (bcstShift c.bcstSize <<< 13)) := by
+  have h1 : (x &&& 0x80DF8110#32 != 0#32) = true := by simp only [bne_iff_ne, ne_eq]; bv_decide
+  have hb28 : ((evexWord x opcode &&& 0x10000000#32) != 0#32) = true := by
+    simp only [evexWord, bne_iff_ne, ne_eq]; bv_decide
+  have hu' : (c.bcstSize == 0) = false := by simpa using hu
+  unfold vexEvexMPrefix
+  simp only [h1, hb28, hu', ↓reduceIte, Bool.false_eq_true]
+  generalize hg : BitVec.ofNat 32 (max (ctzSmall (c.bcstSize <<< m.bcst)) 4 - 4) <<< 29 = bLL at *
+  have hgt : ¬ (bLL > 2#32 <<< 29) := by
+    intro h; exact absurd hbll2 (by bv_decide)
+  have hge : evexWord x opcode &&& (0x3#32 <<< 29) ≥ bLL := hbll
+  simp only [hgt, hge, ↓reduceIte, bcstShift]
+  generalize evexWord x opcode = w at *
+  have e1 : (w &&& ~~~(3#32 <<< 29)) ||| (w &&& 3#32 <<< 29) = w := by bv_decide
+  rw [e1]
+  have e2 : BitVec.truncate 8 (opcode &&& ~~~kCDSHL_Mask ||| BitVec.ofNat 32 (ctzSmall c.bcstSize) <<< 13) = BitVec.truncate 8 opcode := by
+    generalize BitVec.ofNat 32 (ctzSmall c.bcstSize) = t
+    simp only [kCDSHL_Mask]; bv_decide
+  rw [e2]
+
 /-- spec-side `[base64 + disp]` operand -/
-def memOpBase (size : Nat) (rb : BitVec 32) (d : BitVec 64) (seg : Nat := 0) (a32 : Bool := false) : MemOp :=
-  { size := size, baseKind := (if a32 then .gpd else .gpq), baseId := rb.toNat, indexKind := .none, indexId := 0, shift := 0, disp := d, seg := seg, bcst := 0, addrType := 0 }
+def memOpBase (size : Nat) (rb : BitVec 32) (d : BitVec 64) (seg : Nat := 0) (a32 : Bool := false) (bc : Nat := 0) : MemOp :=
+  { size := size, baseKind := (if a32 then .gpd else .gpq), baseId := rb.toNat, indexKind := .none, indexId := 0, shift := 0, disp := d, seg := seg, bcst := bc, addrType := 0 }
 
 /-- the opcode word after the EVEX compressed-displacement adjustment of `EmitVexEvexM` (no broadcast) -/
 def evexCdOpcode (opcode xw : BitVec 32) : BitVec 32 :=
